@@ -98,7 +98,7 @@ impl<W, R, T> XSeq<W, R, T> {
     pub fn iter(&self, ns: &Ns, rt: Rt) -> (r: ElemIter<W, R, T>) ensures r.rest() == self.elems() { unimplemented!() }
     /// XSequence::len of a finite sequence
     #[verifier::external_body]
-    pub fn len(&self) -> (r: Option<usize>) ensures r == Some(self.elems().len() as usize), self.elems().len() * 8 <= isize::MAX /* the elements are held as words in memory */ { unimplemented!() }
+    pub fn len(&self) -> (r: Option<usize>) ensures r == Some(self.elems().len() as usize), self.elems().len() <= usize::MAX /* (a LAZY sequence -- a range, a chain of ranges -- can be this long without holding anything in memory) */ { unimplemented!() }
     /// XSequence::value_to_idx by the contract V-idx proves
     #[verifier::external_body]
     pub fn value_to_idx(&self, i: &LazyBigint, rt: Rt) -> (r: XResult<usize>)
